@@ -51,6 +51,7 @@ def pair_cases(chk):
             cases.append(("vcmp", [0, b"1.0" + x, b"", 0, b"1.0" + y, b""]))
             if x not in (b"-", b":") and y not in (b"-", b":"):
                 cases.append(("vcmp", [0, b"1", b"1" + x, 0, b"1", b"1" + y]))
+                cases.append(("vcmp", [0, b"1", x + b"1", 0, b"1", y + b"1"]))     # the character in front: "+1" is not 1
     streams["exhaustive-character-pairs"] = len(cases) - n0
     ws3 = gen.words(SYMS, 3)
     k = chk.n(30000, 600000)
